@@ -55,7 +55,7 @@ func c11Funcs() []c11Fn {
 
 // domain-aware string pools, chosen by function name and parameter position
 var c11Strings = map[string][][]string{
-	"FormatFunc":       {{"%s", "%d", "%v", "%5.2f", "%q", "%%", "%[2]s %[1]d", "%-5s|", "%x", "%t", "%e", "%#v", "%s %s", "%", "%[9]d", "%!", "%+d", "%05d", "%.3s", "%b", "%o", "%X", "%g", "%[1]s%[1]s", "a%sb", "%c", "%*d", "%.*f"}},
+	"FormatFunc":       {{"%s", "%d", "%v", "%5.2f", "%q", "%%", "%[2]s %[1]d", "%-5s|", "%x", "%t", "%e", "%#v", "%s %s", "%", "%[9]d", "%[18446744073709551615]d", "%[18446744073709551617]s", "%[9223372036854775808]v", "%!", "%+d", "%05d", "%.3s", "%b", "%o", "%X", "%g", "%[1]s%[1]s", "a%sb", "%c", "%*d", "%.*f"}},
 	"FormatListFunc":   {{"%s", "%d-%s", "%v", "%5.1f", "%%", "%[2]s %[1]d", "%", "%q"}},
 	"RegexFunc":        {{"a", "(a)(b)?", "(?P<x>a+)", "[", "(?P<x>a)(b)", "^$", "a|b", "(", "\\d+", ".*", "(?P<x>.)(?P<y>.)?"}},
 	"RegexAllFunc":     {{"a", "(a)(b)?", "(?P<x>a+)", "[", "", "a|b", "\\d+", "."}},
